@@ -450,6 +450,13 @@ class Proxy:
             return over[name]
         return _class_attr(prog, cq, env, kw, name, k, self)
 
+    def __getattribute__(self, name: str) -> Any:
+        # an explicit self.__getattribute__(name) in the analysed code reads instance attributes like getattr does
+        try:
+            return object.__getattribute__(self, name)
+        except AttributeError:
+            return type(self).__getattr__(self, name)
+
     def __setattr__(self, name: str, value: Any) -> None:
         object.__getattribute__(self, "_a")[name] = value
 
